@@ -54,6 +54,10 @@ type Redis struct {
 	// hash (the raw bytes contain real-clock noise: token expiry computed by dependencies).
 	Canon func(key string, val []byte) string
 
+	// DirectFaults makes "error before effect" faults return from the hook itself instead of
+	// being produced by the server (see failAtServer).
+	DirectFaults bool
+
 	inners   []redis.Client
 	unixPath string
 	unixL    net.Listener
@@ -189,7 +193,7 @@ func (h *hookClient) Get(ctx context.Context, key string) ([]byte, error) {
 	_, f := h.r.begin("GET", key)
 	if f != nil {
 		if f.BeforeErr != nil {
-			return nil, f.BeforeErr
+			return nil, h.r.failAtServer(f.BeforeErr, func() error { _, e := h.in.Get(ctx, key); return e })
 		}
 		if f.Missing {
 			return nil, fmt.Errorf("redis: nil")
@@ -215,7 +219,7 @@ func (h *hookClient) Get(ctx context.Context, key string) ([]byte, error) {
 func (h *hookClient) Set(ctx context.Context, key string, value []byte, exp time.Duration) error {
 	_, f := h.r.begin("SET", key)
 	if f != nil && f.BeforeErr != nil {
-		return f.BeforeErr
+		return h.r.failAtServer(f.BeforeErr, func() error { return h.in.Set(ctx, key, value, exp) })
 	}
 	err := h.in.Set(ctx, key, value, exp)
 	if f != nil && f.AfterErr != nil {
@@ -228,7 +232,7 @@ func (h *hookClient) Set(ctx context.Context, key string, value []byte, exp time
 func (h *hookClient) Del(ctx context.Context, key string) error {
 	_, f := h.r.begin("DEL", key)
 	if f != nil && f.BeforeErr != nil {
-		return f.BeforeErr
+		return h.r.failAtServer(f.BeforeErr, func() error { return h.in.Del(ctx, key) })
 	}
 	err := h.in.Del(ctx, key)
 	if f != nil && f.AfterErr != nil {
@@ -245,13 +249,31 @@ func (h *hookClient) Ping(ctx context.Context) error {
 		return ctx.Err()
 	}
 	if f != nil && f.BeforeErr != nil {
-		return f.BeforeErr
+		return h.r.failAtServer(f.BeforeErr, func() error { return h.in.Ping(ctx) })
 	}
 	err := h.in.Ping(ctx)
 	if f != nil && f.AfterErr != nil {
 		return f.AfterErr
 	}
 	obs("PING", err, "")
+	return err
+}
+
+// failAtServer delivers an "error before effect" beneath the repository's own client and lock
+// code: the server answers the operation's commands with an error reply, so the error travels
+// through pkg/sessions/redis (client.go, lock.go) and its dependencies exactly as a real one
+// would, instead of being returned by the hook above them. If the operation reports success all
+// the same, the injected error is returned.
+func (r *Redis) failAtServer(injected error, op func() error) error {
+	if r.DirectFaults || r.M == nil {
+		return injected
+	}
+	r.M.SetError("ERR " + injected.Error())
+	err := op()
+	r.M.SetError("")
+	if err == nil {
+		return injected
+	}
 	return err
 }
 
@@ -269,7 +291,7 @@ func (l *hookLock) Obtain(ctx context.Context, exp time.Duration) error {
 	_, f := l.r.begin("OBTAIN", l.key)
 	if f != nil {
 		if f.BeforeErr != nil {
-			return f.BeforeErr
+			return l.r.failAtServer(f.BeforeErr, func() error { return l.in.Obtain(ctx, exp) })
 		}
 		if f.NotObtained {
 			return sessions.ErrLockNotObtained
@@ -290,7 +312,7 @@ func (l *hookLock) Obtain(ctx context.Context, exp time.Duration) error {
 func (l *hookLock) Peek(ctx context.Context) (bool, error) {
 	_, f := l.r.begin("PEEK", l.key)
 	if f != nil && f.BeforeErr != nil {
-		return false, f.BeforeErr
+		return false, l.r.failAtServer(f.BeforeErr, func() error { _, e := l.in.Peek(ctx); return e })
 	}
 	ok, err := l.in.Peek(ctx)
 	obs("PEEK", err, fmt.Sprint(ok))
@@ -300,7 +322,7 @@ func (l *hookLock) Peek(ctx context.Context) (bool, error) {
 func (l *hookLock) Refresh(ctx context.Context, exp time.Duration) error {
 	_, f := l.r.begin("REFRESH", l.key)
 	if f != nil && f.BeforeErr != nil {
-		return f.BeforeErr
+		return l.r.failAtServer(f.BeforeErr, func() error { return l.in.Refresh(ctx, exp) })
 	}
 	err := l.in.Refresh(ctx, exp)
 	if f != nil && f.AfterErr != nil {
@@ -313,7 +335,7 @@ func (l *hookLock) Refresh(ctx context.Context, exp time.Duration) error {
 func (l *hookLock) Release(ctx context.Context) error {
 	_, f := l.r.begin("RELEASE", l.key)
 	if f != nil && f.BeforeErr != nil {
-		return f.BeforeErr
+		return l.r.failAtServer(f.BeforeErr, func() error { return l.in.Release(ctx) })
 	}
 	err := l.in.Release(ctx)
 	if f != nil && f.AfterErr != nil {
